@@ -41,7 +41,16 @@ pub fn datasets(tier: &str) -> Vec<(String, Vec<(usize, Row)>)> {
     // integer keys above 2^53 that differ by less than one f64 ulp, spread over contexts (shards)
     // and stored in an order that disagrees with the key order
     let big: Vec<(usize, Row)> = [5i64, 1, 7, 3, 0, 6, 2, 4].iter().enumerate().map(|(i, d)| mk(200 + i as i64, ["c0", "c1", "c2"][i % 3], 1_700_000_000_000_000_000 + d, i as f64, &format!("t{i}"), Some(-(1i64 << 60) + 3 * d), 1700002000 + i as i64)).collect();
-    let mut out = vec![("seven".to_string(), base.clone()), ("thirty".to_string(), many), ("bigkeys".to_string(), big)];
+    // one context with many rows (flushed automatically, enough zones for the coordinator's top-k
+    // zone plan) and three small contexts whose few rows hold the smallest keys and stay in memory:
+    // shards without picked zones must still contribute the first LIMIT + OFFSET rows
+    let mut planner: Vec<(usize, Row)> = (0..60).map(|i| mk(300 + i, "c0", 100 + i, i as f64, &format!("u{i:02}"), Some(i), 1700003000 + i)).collect();
+    for (j, cx) in ["c1", "c2", "c3"].iter().enumerate() {
+        for i in 0..4i64 {
+            planner.push(mk(400 + j as i64 * 10 + i, cx, 1 + j as i64 * 4 + i, -(i as f64), &format!("a{j}{i}"), Some(-1 - i), 1700002000 + j as i64 * 10 + i));
+        }
+    }
+    let mut out = vec![("seven".to_string(), base.clone()), ("thirty".to_string(), many), ("bigkeys".to_string(), big), ("planner72".to_string(), planner)];
     if tier != "quick" {
         out.push(("first3".to_string(), base[..3].to_vec()));
         out.push(("one".to_string(), base[..1].to_vec()));
